@@ -95,6 +95,9 @@ class ServerConn:
                         rep = b"VALUE k1 zero one\r\nx\r\nEND\r\n"
                     else:
                         rep = b"WHAT_IS_THIS 17\r\n"
+                elif rf == "two_line_error":
+                    # what memcached answers to a storage command whose data block is malformed: two error lines
+                    rep = b"CLIENT_ERROR bad data chunk\r\nERROR\r\n"
                 elif rf == "foreign":
                     # a well-formed VALUE block for a key that was never asked for
                     if cmd.get("verb") in (b"get", b"gat"):
